@@ -77,6 +77,15 @@ pub fn run_statistics_worker(
     let mut peers: IndexMap<PeerId, (usize, PeerClient, CompactString)> = IndexMap::default();
 
     loop {
+        #[cfg(aquatic_verif)]
+        match aquatic_common::verif::probe("udp.statistics.loop") {
+            aquatic_common::verif::ACTION_RETURN_OK => return Ok(()),
+            aquatic_common::verif::ACTION_RETURN_ERR => {
+                return Err(anyhow::anyhow!("verif: injected statistics worker error"))
+            }
+            _ => (),
+        }
+
         let start_time = Instant::now();
 
         for message in statistics_receiver.try_iter() {
